@@ -157,6 +157,12 @@ def check(run: Run) -> None:
         run.check(d.get(exec_attr) == ("attr", sp2, "execute_result_async"), "C12.R4", init, stmt_of(sup[0]), "root node carries self.execute_result_async (bound, not called)", f"root node's executor attribute is {show(d.get(exec_attr, ('const', None)))[:80]}, expected self.execute_result_async")
         run.check(d.get("_eds_object") == sp2, "C12.R4", init, stmt_of(sup[0]), "root node carries the dataset object", "root node does not carry _eds_object = self")
 
+    # ---------------- R8: execution entry points are defined once, on ObjectStream
+    run.rule("C12.R8", "_get_executor / value_async / value are defined on ObjectStream only (no subclass override changes which executor runs)")
+    for name in ("_get_executor", "value_async", "value"):
+        owners = [c.qual for c in m.classes.values() if name in c.methods or name in c.class_assigns]
+        run.check(owners == [os_cls.qual], "C12.R8", os_cls.methods.get(name) or va, os_cls.node, f"{name} defined on ObjectStream only", f"{name} is (re)defined in {[o.split(':')[-1] for o in owners if o != os_cls.qual]}: derived streams are shallow copies of the object they were derived from, so an override on a dataset class runs the executor of a stale copy / bypasses the routing of ObjectStream._get_executor")
+
     # ---------------- R7: the root node (with its executor and dataset object) is shared, never cloned
     run.rule("C12.R7", "no copy.deepcopy of a stream's query AST: it would clone the dataset object and bind the executor to the clone")
     n_dc = 0
@@ -186,7 +192,9 @@ def check(run: Run) -> None:
 
     # ---------------- R6
     fe = m.find_func("find_EventDataset", in_module="func_adl.event_dataset")
-    finders = [c for c in m.classes.values() if c.parent_func is fe and m.is_visitor(c)]
+    from ..lib import used_visitor
+
+    finders = [used_visitor(m, ctx, fe)]
     if len(finders) != 1 or "visit_Call" not in finders[0].methods:
         raise AnalysisError("find_EventDataset no longer contains one visitor class with visit_Call")
     fc = finders[0]
